@@ -41,7 +41,7 @@ def conf_line(rng, tier, growth=False, is_set=False):
     line = f"new cap={cap} lf={lf} hash={h}"
     klen = 4
     if h == "lib_gen":
-        klen = rng.choice([8, 8, 4, 16]) if buf else rng.choice([1, 4, 7, 8, 16])
+        klen = rng.choice([1, 2, 3, 5, 7, 13, 13, 8, 8, 4, 16])
         line += f" klen={klen}"
     if buf:
         line += " keys=buf"
@@ -50,17 +50,37 @@ def conf_line(rng, tier, growth=False, is_set=False):
     return line, h, klen
 
 
+BIG = [2**31, 2**32, 2**63]
+
+
 def key_pool(rng, h, klen):
-    """keys from a family that collides in the low hash bits, plus the NULL key"""
+    """keys from a family that collides in the low hash bits, plus the NULL key; with some
+    probability also partners that differ by exactly 2^31, 2^32, 2^63 and keys near 2^64 - 1
+    (a comparator or hash that truncates to 32 bits makes them collide or compare equal)"""
     stride = rng.choice([1, 1, 2, 16, 32, 64])
     base = rng.randint(1, 9)
     n = rng.choice([3, 5, 8, 12, 20])
     pool = [base + stride * j for j in range(n)]
-    if h == "lib_gen" and klen == 1:
-        pool = [k for k in pool if k < 256] or [1, 2, 3]
+    limit = 2 ** (8 * klen) if (h == "lib_gen" and klen < 8) else 2 ** 64
+    if rng.random() < 0.4:
+        extra = []
+        for k in rng.sample(pool, min(3, len(pool))):
+            extra += [k + d for d in BIG]
+        extra += [2 ** 64 - 1, 2 ** 64 - 2, 2 ** 32 - 1, 2 ** 31 - 1]
+        pool += extra
+    pool = [k for k in pool if 0 < k < limit] or [1, 2, 3]
     if rng.random() < 0.7:
         pool.append(0)
     return pool
+
+
+def pick_val(rng):
+    r = rng.random()
+    if r < 0.05:
+        return 0
+    if r < 0.2:
+        return rng.choice([5, 5 + 2**31, 5 + 2**32, 5 + 2**63, 2**64 - 1, 2**64 - 2])
+    return rng.randint(1, 99)
 
 
 class HashTableGen:
@@ -128,7 +148,7 @@ class HashTableGen:
                     for i in range(4):
                         ops.append("it_next")
                         if mask >> i & 1:
-                            ops.append("it_remove")
+                            ops.append("it_remove" + (" noout=1" if (mask + i) % 3 == 0 else ""))
                     ops += ["it_next", "it_next"] + self._tail(4) + ["destroy"]
                     out.append(ops)
                 # it_remove before the first next, repeated it_remove, it_remove after END
@@ -138,13 +158,13 @@ class HashTableGen:
                 out.append(ops)
         out.append(["new_default", self._add(1, 2), self._add(0, 3), self._add(1, 4), "remove 1", "remove 1", "destroy"])
         # real buffer keys: an equal key arrives from a different buffer on every call
-        for conf in ("hash=lib_gen klen=8", "hash=lib_gen klen=4", "hash=lib_gen klen=16", "hash=lib_str"):
+        for conf in ["hash=lib_gen klen=%d" % kl for kl in (1, 2, 3, 5, 7, 13, 8, 4, 16)] + ["hash=lib_str"]:
             for cap in (1, 16):
                 ops = [f"new cap={cap} lf=0.75 {conf} keys=buf"]
                 ops += [self._add(5, 50), self._add(5, 51), self._add(300, 52), self._contains(5), self._contains(6)]
                 ops += ([] if self.is_set else ["get 5", "get 300", "get 6"])
-                ops += ["remove 5", "remove 5", self._add(300, 53), self._add(0, 54)] + self._tail(3) + ["destroy"]
-                out.append(ops)
+                ops += ["remove 5 noout=1", "remove 5", self._add(300, 53), self._add(0, 54), "remove 0 noout=1"] + self._tail(3) + ["destroy"]
+                out.append([o.replace("300", "200") for o in ops] if "klen=1 " in ops[0] + " " else ops)
         import random as _r
         det = _r.Random(12345)
         out = [sparsify(det, h) if i % 3 == 2 else h for i, h in enumerate(out)]
@@ -247,6 +267,7 @@ class HashTableGen:
         wl = [w[k] for k in kinds]
         live = set()        # upper bound of the keys in the table
         slots = set()
+        slot_kind = {}
         table = True
         length = rng.randint(1, 70 if tier == "quick" else 150)
         absent_bias = 0.6 if focus == "reject" else 0.2
@@ -257,11 +278,11 @@ class HashTableGen:
 
             def some_key():
                 if rng.random() < absent_bias or not live:
-                    return rng.choice(pool + [97, 98])
+                    return rng.choice(pool + [97, 98] + ([97 + 2**32] if not (h == "lib_gen" and klen < 8) else []))
                 return rng.choice(sorted(live))
             if kind == "add":
                 k = rng.choice(pool) if rng.random() < 0.85 else some_key()
-                v = 0 if rng.random() < 0.05 else rng.randint(1, 99)
+                v = pick_val(rng)
                 ops.append(self._add(k, v))
                 live.add(k)
             elif kind == "get":
@@ -283,13 +304,17 @@ class HashTableGen:
                     slots.discard(s)
                     free = [s]
                 s = rng.choice(free)
-                ops.append(rng.choice(["mk_keys", "mk_values"]) + f" to={s}")
+                mk = rng.choice(["mk_keys", "mk_values"])
+                ops.append(mk + f" to={s}")
+                slot_kind[s] = mk
                 slots.add(s)       # (stays free when the table was empty: the shim reports noslot later)
             elif kind == "arr":
                 if slots:
                     s = rng.choice(sorted(slots))
                     if rng.random() < 0.8:
-                        ops.append(f"arr_add {rng.randint(0, 99)} o={s}")
+                        # elements of a key array are keys of the table's key kind
+                        x = rng.choice(pool) if slot_kind.get(s) == "mk_keys" else pick_val(rng)
+                        ops.append(f"arr_add {x} o={s}")
                     else:
                         ops.append(f"arr_destroy o={s}")
                         slots.discard(s)
